@@ -276,6 +276,46 @@ fn date_on_year(
     }
 }
 
+/// Explicit bounds of a dated range whose start has a fixed year: an end without year falls in
+/// the year of the start, or in the following one if it would come before the start.
+fn bounds_with_start_year(
+    start: &ds::Date,
+    start_offset: &ds::DateOffset,
+    end: &ds::Date,
+    end_offset: &ds::DateOffset,
+) -> Option<(NaiveDate, NaiveDate)> {
+    let ds::Date::Fixed { year: Some(start_year), month: start_month, day: start_day } = start
+    else {
+        return None;
+    };
+
+    let ds::Date::Fixed { year: end_year, month: end_month, day: end_day } = end else {
+        return None;
+    };
+
+    let start = start_offset.apply(NaiveDate::from_ymd_opt(
+        (*start_year).into(),
+        *start_month as _,
+        (*start_day).into(),
+    )?);
+
+    let end = {
+        let candidate = end_offset.apply(NaiveDate::from_ymd_opt(
+            end_year.unwrap_or(*start_year).into(),
+            *end_month as _,
+            (*end_day).into(),
+        )?);
+
+        if start <= candidate {
+            candidate
+        } else {
+            candidate.with_year(candidate.year() + 1)?
+        }
+    };
+
+    Some((start, end))
+}
+
 impl DateFilter for ds::MonthdayRange {
     fn filter<L>(&self, date: NaiveDate, _ctx: &Context<L>) -> bool
     where
@@ -292,6 +332,13 @@ impl DateFilter for ds::MonthdayRange {
                 start: (start, start_offset),
                 end: (end, end_offset),
             } => {
+                // A start with a fixed year happens once: its end must not be repeated every year
+                if let Some((start, end)) =
+                    bounds_with_start_year(start, start_offset, end, end_offset)
+                {
+                    return is_open_from_bounds(date, [start], [end]);
+                }
+
                 let year = date.year();
 
                 if *start == Date::md(29, Month::February) && *end == Date::md(29, Month::February)
@@ -361,38 +408,10 @@ impl DateFilter for ds::MonthdayRange {
                 Some(next_change_from_bounds(date, [start], [end.pred_opt()?]))
             }
             ds::MonthdayRange::Date {
-                start:
-                    (
-                        ds::Date::Fixed {
-                            year: Some(start_year),
-                            month: start_month,
-                            day: start_day,
-                        },
-                        start_offset,
-                    ),
-                end:
-                    (ds::Date::Fixed { year: end_year, month: end_month, day: end_day }, end_offset),
+                start: (start @ ds::Date::Fixed { year: Some(_), .. }, start_offset),
+                end: (end @ ds::Date::Fixed { .. }, end_offset),
             } => {
-                let start = start_offset.apply(NaiveDate::from_ymd_opt(
-                    (*start_year).into(),
-                    *start_month as _,
-                    (*start_day).into(),
-                )?);
-
-                let end = {
-                    let candidate = end_offset.apply(NaiveDate::from_ymd_opt(
-                        end_year.unwrap_or_else(|| *start_year).into(),
-                        *end_month as _,
-                        (*end_day).into(),
-                    )?);
-
-                    if start <= candidate {
-                        candidate
-                    } else {
-                        candidate.with_year(candidate.year() + 1)?
-                    }
-                };
-
+                let (start, end) = bounds_with_start_year(start, start_offset, end, end_offset)?;
                 Some(next_change_from_bounds(date, [start], [end]))
             }
             ds::MonthdayRange::Date {
